@@ -129,6 +129,59 @@ var checkC06v2 = register("C06/v2fields", func(f fieldCase2) string {
 	return grid2("environmental", e.Score(), e.Severity(), adm)
 })
 
+// builtCase2: a v2 object made by a constructor with its exported fields assigned, never
+// decoded (what the score then is — the groups count as absent — is C04/C05's business;
+// here only grid and band of whatever is reported).
+type builtCase2 struct {
+	Level int    `json:"constructor_level"`
+	B     [6]int `json:"base"`
+	T     [3]int `json:"temporal"`
+	E     [5]int `json:"environmental"`
+}
+
+var checkC06v2Built = register("C06/v2built", func(f builtCase2) string {
+	if !inRange2(fieldCase2{B: f.B, T: f.T, E: f.E}) || f.Level < 0 || f.Level > 2 {
+		return ""
+	}
+	var b *m2.Base
+	var t *m2.Temporal
+	var e *m2.Environmental
+	switch f.Level {
+	case 0:
+		b = m2.NewBase()
+	case 1:
+		t = m2.NewTemporal()
+		b = t.Base
+	default:
+		e = m2.NewEnvironmental()
+		t, b = e.Temporal, e.Base
+	}
+	bind.SetV2Base(b, f.B)
+	if t != nil {
+		bind.SetV2Temporal(t, f.T)
+	}
+	if e != nil {
+		bind.SetV2Env(e, f.E)
+	}
+	neg := spec.TSet{}
+	if m := grid2("base (fields assigned, never decoded)", b.Score(), b.Severity(), neg); m != "" {
+		return m
+	}
+	if t != nil {
+		if m := grid2("temporal (fields assigned, never decoded)", t.Score(), t.Severity(), neg); m != "" {
+			return m
+		}
+	}
+	if e != nil {
+		if s := e.Score(); s >= 0 {
+			if m := grid2("environmental (fields assigned, never decoded)", s, e.Severity(), neg); m != "" {
+				return m
+			}
+		}
+	}
+	return ""
+})
+
 // attained tracks which tenths were seen per (version, level).
 type attained [6][128]bool
 
@@ -146,7 +199,7 @@ func isEdge(k int) bool {
 func TestC06(t *testing.T) {
 	c := begin(t, "C06")
 	defer c.end()
-	c.rec.F.Rule = "v3: objects built by field assignment — every version x base x temporal combination (518,400; base and temporal level) and the effective-metric environmental domain of C03 layer 1 (quick: 331,776 x 4 temporal settings; thorough: all 33,177,600) plus a seeded pseudo-random (bijective) sample of the version x base x environmental product (quick 2,000,000, thorough 20,000,000); v2: base x temporal (73,629) and base x environmental sweep with the temporal group absent (quick, 1,399,680) or the complete 141 million product (thorough). At every level of every object: score == k/10 exactly for an integer 0<=k<=100 (one decimal digit when printed), Severity() == rating band of k by integer comparison; v3 report score fields on a 1/4096 subsample. Non-trivial = an observation whose score lies on a band edge (0.0, 0.1, 3.9, 4.0, 6.9, 7.0, 8.9, 9.0, 10.0); enumerated points are distinct by construction."
+	c.rec.F.Rule = "v3: objects built by field assignment — every version x base x temporal combination (518,400; base and temporal level) and the effective-metric environmental domain of C03 layer 1 (quick: 331,776 x 4 temporal settings; thorough: all 33,177,600) plus a seeded pseudo-random (bijective) sample of the version x base x environmental product (quick 2,000,000, thorough 20,000,000); v2: objects never decoded (constructor of each level plus field assignment, all 729 base combinations x 4 hash-chosen optional settings), base x temporal (73,629) and base x environmental sweep with the temporal group absent (quick, 1,399,680) or the complete 141 million product (thorough). At every level of every object: score == k/10 exactly for an integer 0<=k<=100 (one decimal digit when printed), Severity() == rating band of k by integer comparison; v3 report score fields on a 1/4096 subsample. Non-trivial = an observation whose score lies on a band edge (0.0, 0.1, 3.9, 4.0, 6.9, 7.0, 8.9, 9.0, 10.0); enumerated points are distinct by construction."
 	c.rec.F.Assumptions = []string{"the v2 environmental exception is decided by the exact model of C05 (negative equation admits that negative tenth or 0)", "-0.0 is accepted as 0.0 (v2 returns it for zero-impact vectors)"}
 	var att attained
 	var evals, nt int64
@@ -289,6 +342,25 @@ func TestC06(t *testing.T) {
 			evalEnum(c, "v2fields", fieldCase2{B: b, HasT: hasT, T: tt}.withText(), checkC06v2, &nviol)
 		}
 	})
+	// v2 objects that were never decoded: constructor plus field assignment at each level
+	{
+		k := 0
+		for bi := 0; bi < 729 && nviol == 0; bi++ {
+			b := [6]int{bi / 243, bi / 81 % 3, bi / 27 % 3, bi / 9 % 3, bi / 3 % 3, bi % 3}
+			for lv := 0; lv < 3; lv++ {
+				for v := 0; v < 4; v++ {
+					k++
+					if !mine(k) {
+						continue
+					}
+					h := mix(uint64(seed), uint64(k))
+					cs := builtCase2{Level: lv, B: b, T: [3]int{int(h % 5), int(h >> 8 % 5), int(h >> 16 % 4)}, E: [5]int{int(h >> 24 % 6), int(h >> 32 % 5), int(h >> 40 % 4), int(h >> 44 % 4), int(h >> 48 % 4)}}
+					evals++
+					evalEnum(c, "v2built", cs, checkC06v2Built, &nviol)
+				}
+			}
+		}
+	}
 	sweep := func(o *m2.Environmental, b [6]int, hasT bool, tt [3]int) {
 		bind.SetV2Base(o.Base, b)
 		if hasT {
